@@ -171,8 +171,8 @@ Definition expected (k : okind) (hs : list head) (fl : list bool) (X : list row)
 
 Definition batch_of (b : Z) (X : list row) : nat := Z.to_nat (Z.min b (Z.of_nat (length X))).
 
-Definition expected_trace (fl : list bool) (b : Z) (X : list row) (args : list arg) : list callrec :=
-  map (fun s => CR fl false (window s (batch_of b X) X) (map (window s (batch_of b X)) args))
+Definition expected_trace (fl : list bool) (b : Z) (X : list row) (args : list arg) (adt : list nat) : list callrec :=
+  map (fun s => CR fl false (window s (batch_of b X) X) (map (window s (batch_of b X)) args) adt)
       (starts (length X) (batch_of b X)).
 
 Lemma aligned_forallb (X : list row) (args : list arg) :
@@ -189,10 +189,10 @@ Lemma apply_head_concat h tr gr (ls : list (list (row * list row))) :
 Proof. unfold apply_head. symmetry. apply concat_map. Qed.
 
 Theorem predict_examplewise (k : okind) (hs : list head) (s0 : mstate) (b : Z)
-        (X : list row) (args : list arg) :
+        (X : list row) (args : list arg) (adt : list nat) :
   1 <= b -> X <> [] -> Forall (fun a => length a = length X) args ->
-  predict_model (g_ex k hs) s0 b X args
-  = (Ok (expected k hs (all_eval (training s0)) X args), expected_trace (all_eval (training s0)) b X args).
+  predict_model (g_ex k hs) s0 b X args adt
+  = (Ok (expected k hs (all_eval (training s0)) X args), expected_trace (all_eval (training s0)) b X args adt).
 Proof.
   intros Hb HX Hal. set (fl := all_eval (training s0)).
   assert (Hn : (1 <= length X)%nat) by (destruct X; [congruence | cbn; lia]).
@@ -228,9 +228,9 @@ Proof.
 Qed.
 
 (* an args entry whose leading dimension differs from X's is rejected before any forward call *)
-Theorem predict_rejects_misaligned g s0 b X args :
+Theorem predict_rejects_misaligned g s0 b X args adt :
   forallb (fun a => (length a =? length X)%nat) args = false ->
-  predict_model g s0 b X args = (Err, []).
+  predict_model g s0 b X args adt = (Err, []).
 Proof. intros H. unfold predict_model. rewrite H. reflexivity. Qed.
 
 (* every call of the trace: evaluation mode, gradients off, the same window of X and of every
@@ -244,10 +244,10 @@ Proof. unfold all_eval. induction fl; cbn; auto. Qed.
 Lemma all_eval_forallb fl : forallb negb (all_eval fl) = true.
 Proof. unfold all_eval. induction fl; cbn; auto. Qed.
 
-Theorem trace_facts (fl0 : list bool) (b : Z) (X : list row) (args : list arg) :
+Theorem trace_facts (fl0 : list bool) (b : Z) (X : list row) (args : list arg) (adt : list nat) :
   1 <= b -> X <> [] -> Forall (fun a => length a = length X) args ->
-  let t := expected_trace (all_eval fl0) b X args in
-  Forall (fun r => Forall (fun t => t = false) (cr_training r) /\ cr_grad r = false /\
+  let t := expected_trace (all_eval fl0) b X args adt in
+  Forall (fun r => Forall (fun t => t = false) (cr_training r) /\ cr_grad r = false /\ cr_adt r = adt /\
                    exists s, (s < length X)%nat /\
                              cr_X r = window s (batch_of b X) X /\
                              cr_args r = map (window s (batch_of b X)) args) t /\
@@ -293,10 +293,17 @@ Proof.
   rewrite nth_rows by exact Hi. cbn [fst snd]. unfold enc_head. rewrite all_eval_no_training. apply row_eqb_refl.
 Qed.
 
-Lemma flags_expected fl0 b X args : flags_ok (expected_trace (all_eval fl0) b X args) = true.
+Lemma flags_expected fl0 b X args adt : flags_ok (expected_trace (all_eval fl0) b X args adt) = true.
 Proof.
   unfold flags_ok, expected_trace. apply forallb_forall. intros r Hr.
   apply in_map_iff in Hr as (s & <- & _). cbn [cr_training cr_grad]. rewrite all_eval_forallb. reflexivity.
+Qed.
+
+Lemma dtypes_expected fl b X args adt : dtypes_ok adt (expected_trace fl b X args adt) = true.
+Proof.
+  unfold dtypes_ok, expected_trace. apply forallb_forall. intros r Hr.
+  apply in_map_iff in Hr as (s & <- & _). cbn [cr_adt].
+  apply (list_eqb_spec Nat.eqb); [intros; apply Nat.eqb_eq | reflexivity].
 Qed.
 
 Lemma scope_facts c : in_scope c = true -> 1 <= c_b c /\ c_X c <> [].
@@ -307,7 +314,7 @@ Qed.
 
 Lemma model_in_scope c : in_scope c = true -> args_aligned c = true ->
   model c = (Ok (expected (c_kind c) (enc_heads (nheads c)) (all_eval (training (c_state c))) (c_X c) (c_args c)),
-             expected_trace (all_eval (training (c_state c))) (c_b c) (c_X c) (c_args c)).
+             expected_trace (all_eval (training (c_state c))) (c_b c) (c_X c) (c_args c) (c_adt c)).
 Proof.
   intros Hs Ha. apply scope_facts in Hs as [Hb HX]. unfold model.
   apply predict_examplewise; auto. apply aligned_forallb. exact Ha.
@@ -321,15 +328,15 @@ Proof.
   - rewrite model_in_scope by auto. cbn [fst snd]. unfold expected, nheads.
     destruct (c_kind c) eqn:Hk.
     + change (nth 0 (enc_heads 1) dhead) with (enc_head 1).
-      rewrite head_ok_enc, flags_expected. reflexivity.
+      rewrite head_ok_enc, flags_expected, dtypes_expected. reflexivity.
     + rewrite map_length. unfold enc_heads at 1. rewrite map_length, seq_length, Nat.eqb_refl.
-      rewrite flags_expected. cbn [andb]. rewrite andb_true_r.
+      rewrite flags_expected, dtypes_expected. cbn [andb]. rewrite !andb_true_r.
       apply forallb_seq. intros j Hj.
       rewrite nth_map_in with (d' := dhead)
         by (unfold enc_heads; rewrite map_length, seq_length; exact Hj).
       rewrite nth_enc_heads by exact Hj. apply head_ok_enc.
     + rewrite map_length. unfold enc_heads at 1. rewrite map_length, seq_length, Nat.eqb_refl.
-      rewrite flags_expected. cbn [andb]. rewrite andb_true_r.
+      rewrite flags_expected, dtypes_expected. cbn [andb]. rewrite !andb_true_r.
       apply forallb_seq. intros j Hj.
       rewrite nth_map_in with (d' := dhead)
         by (unfold enc_heads; rewrite map_length, seq_length; exact Hj).
@@ -347,12 +354,12 @@ Proof.
   pose proof (scope_facts c Hs) as [Hb HX].
   assert (Hal : Forall (fun a => length a = length (c_X c)) (c_args c))
     by (apply aligned_forallb; exact Ha).
-  destruct (trace_facts (training (c_state c)) (c_b c) (c_X c) (c_args c) Hb HX Hal) as (F1 & _ & _ & F4).
+  destruct (trace_facts (training (c_state c)) (c_b c) (c_X c) (c_args c) (c_adt c) Hb HX Hal) as (F1 & _ & _ & F4).
   assert (Hn : (1 <= length (c_X c))%nat) by (destruct (c_X c); [congruence | cbn; lia]).
   unfold trace_ok. apply andb_true_iff. split.
   - apply (list_eqb_spec pair_eqb pair_eqb_spec). exact F4.
   - apply forallb_forall. intros r Hr. rewrite Forall_forall in F1.
-    destruct (F1 r Hr) as (_ & _ & s & Hlt & HXw & HAw).
+    destruct (F1 r Hr) as (_ & _ & _ & s & Hlt & HXw & HAw).
     rewrite HXw, HAw. rewrite map_length, Nat.eqb_refl.
     assert (Hw : length (window s (batch_of (c_b c) (c_X c)) (c_X c))
                  = Nat.min (batch_of (c_b c) (c_X c)) (length (c_X c) - s)).
